@@ -44,6 +44,8 @@ type Config struct {
 	// ColdQueueLocks: lock operations on sites marked cold by the rewriter
 	// (PacketQueue's private mutex) are not scheduling points.
 	ColdQueueLocks bool `json:"cold_queue_locks"`
+	// CtxErrPoints: ctx.Err() is a scheduling point.
+	CtxErrPoints bool `json:"ctx_err_points,omitempty"`
 	// EOFReadCostMs is the simulated cost of one Read that returns io.EOF.
 	EOFReadCostMs int `json:"eof_read_cost_ms"`
 	// Replay, if non-nil, answers the choice stream. Lenient replay answers 0 when the tape is exhausted.
@@ -135,6 +137,10 @@ type Sim struct {
 	locks  map[uintptr]*lockState
 	onces  map[uintptr]*onceState
 	wgs    map[uintptr]int
+	wgKeep map[uintptr]interface{}
+	// ctxByDone / timerByChan: whose channel is this (race detector edges for receives, see simCtx.syncVar)
+	ctxByDone   map[uintptr]*simCtx
+	timerByChan map[uintptr]*Timer
 	closed map[uintptr]interface{}
 	timers []*simCtx // active deadline contexts
 	// library timers (time.After / NewTimer / AfterFunc / NewTicker) on the simulated clock
@@ -194,6 +200,9 @@ func New(cfg Config) *Sim {
 		locks:      map[uintptr]*lockState{},
 		onces:      map[uintptr]*onceState{},
 		wgs:        map[uintptr]int{},
+		wgKeep:     map[uintptr]interface{}{},
+		ctxByDone:   map[uintptr]*simCtx{},
+		timerByChan: map[uintptr]*Timer{},
 		closed:     map[uintptr]interface{}{},
 		siteHits:   map[int]int{},
 		switchAt:   map[[2]int]int{},
@@ -623,6 +632,15 @@ func (s *Sim) popDueEvent(i int) *simEvent {
 func (s *Sim) Machinery(format string, a ...interface{}) {
 	if s.machinery == "" {
 		s.machinery = fmt.Sprintf(format, a...)
+	}
+}
+
+// machineryFromTask records a machinery problem from a task goroutine (the scheduler is parked meanwhile).
+//
+//go:norace
+func (s *Sim) machineryFromTask(msg string) {
+	if s.machinery == "" {
+		s.machinery = msg
 	}
 }
 
